@@ -45,6 +45,7 @@ META = dict(
          "A construct outside the table yields ANALYSIS-ERROR, never a pass.",
     technique="dependency-lag abstract interpretation (dataflow) over the AST",
 )
+META["text"] += ' Control dependence counts: a value returned under a data-dependent branch, and everything computed after an early return under one, depends on the whole sample. (R6, N) no method keeps state between calls (see C01.R8).'
 
 
 from .. import nnm_rules  # noqa: E402
